@@ -65,6 +65,7 @@ ATTR = [
     (r"^end-not-running$", ["C02", "C14"]),
     (r"^outcome-mismatch$", ["C06"]),
     (r"^spurious-cancel-parent-aborted-(\w+)$", "cause"),
+    (r"^spurious-cancel-parent-not-main$", ["C06", "C02"]),
     (r"^spurious-cancel", ["C06"]),
     (r"^cancel-", ["C05", "C08", "C09"]),
     (r"^tick-over-eligible-job$", ["C12", "C03"]),
@@ -107,15 +108,20 @@ ATTR = [
 
 def attribute(code):
     """-> list of property ids, or None when the code is unknown"""
+    extra = []
+    if code.endswith("-under-forever"):
+        # the refused event belongs to a forever job, or to a job inside a forever nested scheduler
+        code = code[:-len("-under-forever")]
+        extra = ["C09"]
     for rex, props in ATTR:
         m = re.match(rex, code)
         if not m:
             continue
         if props == "cause":
-            return CAUSE.get(m.group(1), ["C05", "C08", "C09"])
+            return CAUSE.get(m.group(1), ["C05", "C08", "C09"]) + extra
         if props == "cause2":
-            return CAUSE.get(m.group(2), ["C05", "C08", "C09"])
-        return props
+            return CAUSE.get(m.group(2), ["C05", "C08", "C09"]) + extra
+        return props + extra
     return None
 
 
